@@ -31,7 +31,7 @@ Print Assumptions C15_same_object.
 
 (* require('X') and require('node:X') are the identical object for a core module X that is not overridden *)
 Theorem C15_node_prefix_alias : forall name,
-  let nr := {| n_registry := []; n_global := []; n_core := [name] |} in
+  let nr := {| n_registry := []; n_global := []; n_core := [name]; n_loader_reqs := [] |} in
   has_prefix node_prefix name = false ->
   forall st, cache_get (native_cache st) name = None ->
   let st1 := fst (load_native nr st name) in
@@ -46,13 +46,25 @@ Proof.
 Qed.
 Print Assumptions C15_node_prefix_alias.
 
+(* re-entrant loaders (a core loader that requires the other spelling of its own name, directly or through other loaders):
+   the module is cached under both spellings before its loader runs *)
+Theorem C15_alias_in_place_for_the_loader : forall nr rq st name,
+  has_prefix node_prefix name = false ->
+  mem_zs name (n_registry nr) = false -> mem_zs name (n_global nr) = false -> mem_zs name (n_core nr) = true ->
+  cache_get (native_cache st) name = None ->
+  exists m, snd (load_native nr st name) = ROk m /\
+    let st1 := fst (load_native nr st name) in
+    load_native_run nr rq st1 name = (st1, ROk m) /\ load_native_run nr rq st1 (node_prefix ++ name) = (st1, ROk m).
+Proof. exact alias_in_place_for_the_loader. Qed.
+Print Assumptions C15_alias_in_place_for_the_loader.
+
 Theorem C15_source_tie : Gen.RequireGlue.resolve_src = Model.ResolveSrc.expected_resolve_src.
 Proof. exact resolve_source_unchanged. Qed.
 Print Assumptions C15_source_tie.
 
 Example C15_nonvacuous :
   let util := [117;116;105;108] in
-  let nr := {| n_registry := [util]; n_global := []; n_core := [util] |} in
+  let nr := {| n_registry := [util]; n_global := []; n_core := [util]; n_loader_reqs := [] |} in
   let fs := [(util ++ [46;106;115], FJs [IBump])] in                      (* "util.js" next to scripts with relative names *)
   let dot := parse [46] in
   let st := run_tops fs nr 5 init_state [(dot, [46;47] ++ util); (dot, node_prefix ++ util); (dot, util)] in
@@ -60,7 +72,7 @@ Example C15_nonvacuous :
   option_map (native_owner st) (cache_get (native_cache st) util) = Some (Some (util, NRegistry)) /\
   option_map (native_owner st) (cache_get (native_cache st) (node_prefix ++ util)) = Some (Some (util, NCore)).
 Proof.
-  cbv zeta. assert (W : wf_natives {| n_registry := [[117;116;105;108]]; n_global := []; n_core := [[117;116;105;108]] |}).
+  cbv zeta. assert (W : wf_natives {| n_registry := [[117;116;105;108]]; n_global := []; n_core := [[117;116;105;108]]; n_loader_reqs := [] |}).
   { split.
     - intros n [H|H]; cbn in H; [|discriminate]. rewrite orb_false_r in H. apply zs_eqb_eq in H. subst. reflexivity.
     - intros c H _. cbn in H. rewrite orb_false_r in H. apply zs_eqb_eq in H. subst. reflexivity. }
